@@ -632,3 +632,108 @@ def fam_crash_core(tier="quick"):
         L.append(" | ".join([f"crOK{n}"] + parts[1:]))
         n += 1
     return L
+
+
+# ---------------------------------------------------------------------------- litmus (C02, C03)
+# a shape: list of threads; an op is ("W", loc, val) | ("R", loc) | ("U", loc, val) (fetch_add) | ("C", loc, exp, new)
+LITMUS = {
+    "SB": [[("W", 0, 1), ("R", 1)], [("W", 1, 1), ("R", 0)]],
+    "MP": [[("W", 0, 1), ("W", 1, 1)], [("R", 1), ("R", 0)]],
+    "LB": [[("R", 0), ("W", 1, 1)], [("R", 1), ("W", 0, 1)]],
+    "S": [[("W", 0, 2), ("W", 1, 1)], [("R", 1), ("W", 0, 1)]],
+    "R": [[("W", 0, 1), ("W", 1, 1)], [("W", 1, 2), ("R", 0)]],
+    "CoRR": [[("W", 0, 1), ("W", 0, 2)], [("R", 0), ("R", 0)]],
+    "CoWR": [[("W", 0, 1), ("R", 0)], [("W", 0, 2), ("R", 0)]],
+    "CoRW": [[("R", 0), ("W", 0, 1)], [("W", 0, 2), ("R", 0)]],
+    "22W": [[("W", 0, 1), ("W", 1, 2)], [("W", 1, 1), ("W", 0, 2)], [("R", 0), ("R", 0), ("R", 1), ("R", 1)]],
+    "WRC": [[("W", 0, 1)], [("R", 0), ("W", 1, 1)], [("R", 1), ("R", 0)]],
+    "RWC": [[("W", 0, 1)], [("R", 0), ("R", 1)], [("W", 1, 1), ("R", 0)]],
+    "IRIW": [[("W", 0, 1)], [("W", 1, 1)], [("R", 0), ("R", 1)], [("R", 1), ("R", 0)]],
+    "MPU": [[("W", 0, 1), ("W", 1, 1)], [("U", 1, 2)], [("R", 1), ("R", 0)]],
+    "UU": [[("U", 0, 1), ("R", 0)], [("U", 0, 2), ("R", 0)]],
+    "CAS": [[("C", 0, 0, 1), ("R", 0)], [("C", 0, 0, 2), ("R", 0)]],
+    "WU": [[("W", 0, 1), ("R", 0)], [("U", 0, 2), ("R", 0)]],
+    "MPRS": [[("W", 0, 1), ("W", 1, 1), ("W", 1, 2)], [("R", 1), ("R", 0)]],
+}
+L_ORD = {"R": ["rlx", "acq", "sc"], "W": ["rlx", "rel", "sc"], "U": ["rlx", "rel", "acq", "ar", "sc"], "C": ["rlx", "ar", "sc"]}
+FENCES = [None, "rel", "acq", "ar", "sc"]
+
+
+def litmus_line(pid, shape, ords, fences):
+    """ords: per access ordering (flat list); fences: per thread a fence (or None) between its first two ops"""
+    nloc = 1 + max(op[1] for th in shape for op in th)
+    decls = ["A0"] * nloc
+    bodies = [[f"sp {t}" for t in range(1, len(shape) + 1)] + [f"jn {t}" for t in range(1, len(shape) + 1)]]
+    k = 0
+    for t, th in enumerate(shape):
+        b = []
+        for i, op in enumerate(th):
+            o = ords[k]
+            k += 1
+            if op[0] == "W":
+                b.append(f"st {op[1]} {op[2]} {o}")
+            elif op[0] == "R":
+                b.append(f"ld {op[1]} {o}")
+            elif op[0] == "U":
+                b.append(f"rmw {op[1]} add {op[2]} {o}")
+            else:
+                fo = "rlx" if o == "rlx" else ("acq" if o == "ar" else "sc")
+                b.append(f"cas {op[1]} {op[2]} {op[3]} {o} {fo}")
+            if i == 0 and fences[t]:
+                b.append(f"fn {fences[t]}")
+        bodies.append(b)
+    return prog_line(pid, decls, bodies)
+
+
+def fam_litmus_core(tier="quick"):
+    big = tier != "quick"
+    L = []
+    for name, shape in LITMUS.items():
+        kinds = [op[0] for th in shape for op in th]
+        nacc = len(kinds)
+        heavy = len(shape) >= 3          # three and more threads: thousands of iterations per program
+        if name in ("IRIW", "22W") and not big:
+            continue
+        assigns = []
+        # uniform assignments
+        assigns.append([L_ORD[k][0] for k in kinds])          # all relaxed
+        assigns.append([("acq" if k == "R" else "rel" if k == "W" else "ar") for k in kinds])
+        assigns.append(["sc"] * nacc)
+        # one position strengthened / weakened at a time
+        for i in range(nacc):
+            if heavy and not big:
+                break
+            a = [L_ORD[k][0] for k in kinds]
+            a[i] = "acq" if kinds[i] == "R" else "rel" if kinds[i] == "W" else "ar"
+            assigns.append(a)
+            a = [("acq" if k == "R" else "rel" if k == "W" else "ar") for k in kinds]
+            a[i] = "rlx"
+            assigns.append(a)
+            a = ["sc"] * nacc
+            a[i] = "acq" if kinds[i] == "R" else "rel" if kinds[i] == "W" else "ar"
+            assigns.append(a)
+        if big and nacc <= 4:
+            assigns = [list(x) for x in itertools.product(*[L_ORD[k] for k in kinds])]
+        seen = set()
+        n = 0
+        for a in assigns:
+            if tuple(a) in seen:
+                continue
+            seen.add(tuple(a))
+            L.append(litmus_line(f"lt{name}{n}", shape, a, [None] * len(shape)))
+            n += 1
+        # fences between the two accesses of each thread, over relaxed accesses
+        rl = [L_ORD[k][0] for k in kinds]
+        two = [t for t, th in enumerate(shape) if len(th) >= 2]
+        fsets = FENCES if not heavy else ([None, "ar", "sc"] if big else [None, "sc"])
+        if name in ("IRIW", "22W"):
+            fsets = [None, "sc"]
+        for fs in itertools.product(fsets, repeat=len(two)):
+            if all(f is None for f in fs):
+                continue
+            fl = [None] * len(shape)
+            for t, f in zip(two, fs):
+                fl[t] = f
+            L.append(litmus_line(f"lt{name}F{n}", shape, rl, fl))
+            n += 1
+    return L
